@@ -22,7 +22,7 @@ CHECKS = {
  "C10": ("model_checking", "SCHED",
    "stateless DFS over all release orders of peer actions, parked call handlers, stop()/handle drop and the library's cfg points on real in-memory WebSocket and HTTP/1.1 connections; trace monitor with a transport write log",
    "0-3 connections (WebSocket and keep-alive HTTP) with calls whose handler parks at scheduling points, optional subscription, second stop(), dropping all handles, peer close/drop racing the stop; stop() is a scheduling point of its own and so lands at every position of the history. On every execution: each started call whose peer stayed is answered and its handler ran to completion, nothing is written to a transport and no handler starts after stopped() resolved, stopped() resolves and every serve future ends.",
-   "Preemption only at points; 'handed to the transport' = write on the server half of the in-memory duplex. Server::start's accept loop is not in the loop (TowerService assembly).",
+   "Preemption only at points; 'handed to the transport' = write on the server half of the in-memory duplex. The TowerService assembly over in-memory duplexes is the main vehicle; additional SRV-TCP legs run the same histories against Server::start over loopback sockets (every schedule executed twice).",
    "DESIGN.md §6 C10"),
  "C06": ("model_checking", "SCHED",
    "stateless DFS over all release orders of peer actions and puppet-handler steps on real in-memory WebSocket connections; interval-rule (linearizability-style) monitor against a reference set of active subscriptions and a slot counter",
